@@ -312,6 +312,8 @@ func r16_3(c *Ctx) {
 		return
 	}
 	w, r := fn.Params[1], fn.Params[2]
+	isW := func(v ssa.Value) bool { return carriesOnly(v, w) }
+	isR := func(v ssa.Value) bool { return carriesOnly(v, r) }
 	name := fnLabel(fn)
 	var up, gs *ssa.Call
 	var sub ssa.CallInstruction
@@ -339,10 +341,10 @@ func r16_3(c *Ctx) {
 	gsOK := func(v ssa.Value) bool { e, ok := v.(*ssa.Extract); return ok && e.Index == 1 && e.Tuple == ssa.Value(gs) }
 	is500 := func(call *ssa.Call) bool {
 		k, ok := constInt(call.Call.Args[2])
-		return ok && k == 500 && call.Call.Args[0] == ssa.Value(w)
+		return ok && k == 500 && isW(call.Call.Args[0])
 	}
 	// Upgrade called with (w, r); error => 500 and return before Subscribe
-	c.check(up.Call.Args[0] == ssa.Value(w) && up.Call.Args[1] == ssa.Value(r), name+":upgrade-args", P.ipos(up), "Upgrade(w, r)", "Upgrade is not called with the handler's writer and request")
+	c.check(isW(up.Call.Args[0]) && isR(up.Call.Args[1]), name+":upgrade-args", P.ipos(up), "Upgrade(w, r)", "Upgrade is not called with the handler's writer and request")
 	{
 		got := false
 		for _, he := range httpErrs {
@@ -365,11 +367,11 @@ func r16_3(c *Ctx) {
 			forward([]startPoint{atEdge(ifi.Block(), 1-s)}, func(in ssa.Instruction) searchAction {
 				if ci, ok := in.(ssa.CallInstruction); ok {
 					for _, a := range ci.Common().Args {
-						if a == ssa.Value(w) || upSess(a) {
+						if isW(a) || upSess(a) {
 							wrote = true
 						}
 					}
-					if ci.Common().IsInvoke() && (ci.Common().Value == ssa.Value(w)) {
+					if ci.Common().IsInvoke() && isW(ci.Common().Value) {
 						wrote = true
 					}
 				}
@@ -383,7 +385,7 @@ func r16_3(c *Ctx) {
 		ctxOK, subOK := false, false
 		args := sub.Common().Args
 		if len(args) == 2 {
-			if call, ok := isStaticCall(args[0], "(*net/http.Request).Context"); ok && call.Call.Args[0] == ssa.Value(r) {
+			if call, ok := isStaticCall(args[0], "(*net/http.Request).Context"); ok && isR(call.Call.Args[0]) {
 				ctxOK = true
 			}
 			for _, s := range sources(args[1]) {
@@ -518,6 +520,12 @@ func r16_4(c *Ctx) {
 				topOK = false
 			}
 			continue
+		}
+		// defaulter(topics) under ok: installs the topics when non-empty and the default otherwise
+		if call, ok := st.Val.(*ssa.Call); ok && len(call.Call.Args) == 1 && onTopics(call.Call.Args[0]) {
+			if callee := call.Call.StaticCallee(); callee != nil && isTopicsDefaulter(P, callee) && guardedByBool(fn, st.Block(), onOK, true) {
+				continue
+			}
 		}
 		topOK = false
 	}
@@ -1249,4 +1257,42 @@ func r20_4(c *Ctx) {
 	if n == 0 {
 		c.bad(fnLabel(fn)+":need-more-data", P.pos(fn.Pos()), "splitFunc never requests more data")
 	}
+}
+
+// isTopicsDefaulter: f(initial []string) returns `initial` exactly on paths where len(initial) >= 1
+// and the slice holding DefaultTopic on the others.
+func isTopicsDefaulter(P *Program, f *ssa.Function) bool {
+	if f.Blocks == nil || len(f.Params) != 1 || f.Signature.Results().Len() != 1 || len(loopsOf(f)) > 0 {
+		return false
+	}
+	p := f.Params[0]
+	isLen := isLenCallOf(func(v ssa.Value) bool { return v == ssa.Value(p) })
+	rets := returnsOf(f)
+	if len(rets) == 0 {
+		return false
+	}
+	for _, ret := range rets {
+		for _, src := range sources(ret.Results[0]) {
+			switch {
+			case src == ssa.Value(p):
+				if !intGuard(f, ret.Block(), isLen, 0, 1, posInf) {
+					return false
+				}
+			default:
+				a, ok := loadedFrom(src)
+				g, isG := a.(*ssa.Global)
+				if !ok || !isG {
+					return false
+				}
+				v, ok := globalStringSliceInit(P, g)
+				if !ok || len(v) != 1 || v[0] != defaultTopicConst(P) {
+					return false
+				}
+				if !intGuard(f, ret.Block(), isLen, 0, 0, 0) {
+					return false
+				}
+			}
+		}
+	}
+	return true
 }
